@@ -164,6 +164,8 @@ def run(P, R):
             'candidates|get_process_identifiers', gp.loc(), 'get_process_identifiers is not `[i for i in '
             'self.identifiers if i in process.info_map and not process.disabled_on(i)]`')
 
+    shared.distribution_candidates(P, R, r2)
+
     # ---------------------------------------------------------------- R3
     r3 = R.rule('R3', 'must-pass-through', 'every selection goes through the RUNNING filter and the 100% node cap: '
                 'strategy.get_supvisors_instance hands the strategy object only identifiers of '
@@ -421,5 +423,6 @@ def run(P, R):
                 '%s places a process with the pending requests of its own application only (%s); starts requested at '
                 'the same time by another application of the same sequence are ignored: two applications can each be '
                 'granted the same spare load (e.g. 2 x 60%% on an empty instance)' % (u.qual, src))
+    shared.pending_load_definition(P, R, r8)
     R.assume('The numeric load accounting itself and the concurrency of several application starts beyond R8 are NOT '
              'decided.')
